@@ -154,9 +154,12 @@ type Sim struct {
 	Cfg SimConfig
 	M   *Model
 	B   *WB
-	L   *WB // loop twin (C08), nil otherwise
-	N   *WB // twin without listener (C11), nil otherwise
-	F   *WB // fresh twin of the current reset segment (C15), nil before the first reset
+	L   *WB         // loop twin (C08), nil otherwise
+	N   *WB         // twin without listener (C11), nil otherwise
+	F   *WB         // fresh twin of the current reset segment (C15), nil before the first reset
+	X   []*subWorld // lock-step worlds with restricted listeners (C12)
+	// SubSpecs are the listener configurations of X (for the replay file).
+	SubSpecs []SubSpec
 	// RawDiverged: raw handles of the reset world and its fresh twin may legitimately differ
 	// from now on (DESIGN 4.17).
 	RawDiverged bool
@@ -223,6 +226,9 @@ func (s *Sim) Worlds() []*WB {
 	if s.L != nil {
 		out = append(out, s.L)
 	}
+	for _, x := range s.X {
+		out = append(out, x.b)
+	}
 	return out
 }
 
@@ -253,7 +259,11 @@ func (s *Sim) Report(f *Finding) {
 	if len(s.Ops) > 0 {
 		msg += " (after op " + fmt.Sprint(len(s.Ops)-1) + ": " + s.Ops[len(s.Ops)-1].Describe() + ")"
 	}
-	WriteFail(&Replay{Property: s.Cfg.Prop, Build: BuildName(), Message: msg, Universe: s.M.U, Ops: s.Ops})
+	var extra any
+	if len(s.SubSpecs) > 0 {
+		extra = s.SubSpecs
+	}
+	WriteFail(&Replay{Property: s.Cfg.Prop, Build: BuildName(), Message: msg, Universe: s.M.U, Ops: s.Ops, Extra: extra})
 	if f.Cat == CatHarness {
 		s.T.Fatalf("HARNESS-BUG %s: %s", s.Cfg.Prop, msg)
 	}
@@ -375,6 +385,11 @@ func (s *Sim) Apply(op Op) {
 			b.Rec.Begin()
 		}
 	}
+	for _, x := range s.X {
+		for _, l := range x.subs {
+			l.rec.Begin()
+		}
+	}
 	o := &s.Ops[len(s.Ops)-1]
 	s.TargetDied = false
 	s.Flags = nil
@@ -393,6 +408,10 @@ func (s *Sim) Apply(op Op) {
 	}
 	if s.Cfg.FreshTwin {
 		s.checkFreshHandles(o, prevHandles)
+	}
+	s.checkSubscriptions(o)
+	if s.Done() {
+		return
 	}
 	s.VerifyAll()
 }
@@ -421,6 +440,8 @@ func (s *Sim) dispatch(o *Op) {
 		s.doLockLimit(o)
 	case OpRegisterNew:
 		s.doRegisterNew(o)
+	case OpAddListener:
+		s.doAddListener(o)
 	case OpNew, OpNewWith, OpBuildNew:
 		s.doCreate(o)
 	case OpBuildBatch:
